@@ -33,6 +33,20 @@ def set_parents(tree):
 # context-manager classes used only in ``with`` statements are expanded in place
 
 
+def _clone(node):
+    """deep copy of an AST without the parent links"""
+    if isinstance(node, list):
+        return [_clone(x) for x in node]
+    if not isinstance(node, ast.AST):
+        return node
+    new = type(node)()
+    for k, v in node.__dict__.items():
+        if k == '_parent':
+            continue
+        setattr(new, k, _clone(v))
+    return new
+
+
 def _simple_expr(e):
     if isinstance(e, (ast.Name, ast.Constant)):
         return True
@@ -146,11 +160,11 @@ def expand_context_manager_classes(tree):
         class Sub(ast.NodeTransformer):
             def visit_Attribute(self, node):
                 if isinstance(node.value, ast.Name) and node.value.id == me and node.attr in spec['fields']:
-                    return copy.deepcopy(args[spec['fields'][node.attr]])
+                    return _clone(args[spec['fields'][node.attr]])
                 self.generic_visit(node)
                 return node
-        out = [Sub().visit(copy.deepcopy(st)) for st in stmts]
-        r = Sub().visit(copy.deepcopy(ret)) if ret is not None else None
+        out = [Sub().visit(_clone(st)) for st in stmts]
+        r = Sub().visit(_clone(ret)) if ret is not None else None
         for st in out + ([r] if r is not None else []):
             for x in ast.walk(st):
                 x.lineno = ref.lineno
@@ -188,6 +202,185 @@ def expand_context_manager_classes(tree):
     tree.body = [st for st in tree.body if not (isinstance(st, ast.ClassDef) and st.name in specs)]
     set_parents(tree)
     return sorted(specs)
+
+
+def _gen_cm_spec(fdef, is_method):
+    """a @contextmanager function of the shape  pre ; yield [value] ; post   or   pre ; try: yield [value] finally: post
+    with straight-line pre/post -> dict, else None"""
+    if not any(ast.unparse(d).split('.')[-1] == 'contextmanager' for d in fdef.decorator_list) or len(fdef.decorator_list) != 1:
+        return None
+    a = fdef.args
+    if a.vararg or a.kwarg or a.kwonlyargs or a.defaults:
+        return None
+    params = [x.arg for x in a.args]
+    if is_method:
+        if not params:
+            return None
+        me, params = params[0], params[1:]
+    else:
+        me = None
+    body = [st for st in fdef.body if not (isinstance(st, ast.Expr) and isinstance(st.value, ast.Constant))]
+
+    def is_yield(st):
+        return isinstance(st, ast.Expr) and isinstance(st.value, ast.Yield)
+    idx = [i for i, st in enumerate(body) if is_yield(st) or (isinstance(st, ast.Try) and any(is_yield(x) for x in st.body))]
+    if len(idx) != 1:
+        return None
+    i = idx[0]
+    pre, mid = body[:i], body[i]
+    if is_yield(mid):
+        post, fin, yv = body[i + 1:], False, mid.value.value
+    else:
+        if mid.handlers or mid.orelse or len(mid.body) != 1 or body[i + 1:]:
+            return None
+        post, fin, yv = mid.finalbody, True, mid.body[0].value.value
+    for st in pre + post:
+        if not isinstance(st, (ast.Assign, ast.AugAssign, ast.Expr, ast.Pass)):
+            return None
+        for x in ast.walk(st):
+            if isinstance(x, (ast.Yield, ast.YieldFrom, ast.Lambda, ast.Await, ast.NamedExpr)):
+                return None
+    stored = {x.id for st in pre + post for x in ast.walk(st) if isinstance(x, ast.Name) and isinstance(x.ctx, ast.Store)}
+    if stored & set(params):
+        return None
+    return dict(me=me, params=params, pre=pre, post=post, fin=fin, yv=yv, locals=stored, name=fdef.name)
+
+
+def expand_generator_context_managers(tree):
+    """``with self.m(x):`` / ``with f(x):`` on a @contextmanager function of the same class / module that is a plain
+    "pre; yield; post" generator is replaced by its pre and post statements around the body (try/finally when the
+    generator has one); the function is dropped when no other mention of it is left.  -> names expanded"""
+    import copy
+    specs = {}          # (class name | None, function name) -> spec
+    for st in tree.body:
+        if isinstance(st, ast.FunctionDef):
+            sp = _gen_cm_spec(st, False)
+            if sp:
+                specs[(None, st.name)] = sp
+        elif isinstance(st, ast.ClassDef):
+            for m in st.body:
+                if isinstance(m, ast.FunctionDef):
+                    sp = _gen_cm_spec(m, True)
+                    if sp:
+                        specs[(st.name, m.name)] = sp
+    if not specs:
+        return []
+    counter = [0]
+
+    def enclosing_class(node):
+        n = getattr(node, '_parent', None)
+        while n is not None:
+            if isinstance(n, ast.ClassDef):
+                return n.name
+            n = getattr(n, '_parent', None)
+        return None
+
+    def spec_for(ce, node):
+        if not (isinstance(ce, ast.Call) and not ce.keywords and all(_simple_expr(x) for x in ce.args)):
+            return None
+        fn = ce.func
+        sp = None
+        if isinstance(fn, ast.Name):
+            sp = specs.get((None, fn.id))
+        elif isinstance(fn, ast.Attribute) and isinstance(fn.value, ast.Name) and fn.value.id == 'self':
+            sp = specs.get((enclosing_class(node), fn.attr))
+        if sp is None or len(ce.args) != len(sp['params']):
+            return None
+        return sp
+
+    def instantiate(stmts, sp, args, ref, tag):
+        ren = {v: '_cm%d_%s' % (tag, v) for v in sp['locals']}
+
+        class Sub(ast.NodeTransformer):
+            def visit_Name(self, node):
+                if node.id in ren:
+                    return ast.copy_location(ast.Name(id=ren[node.id], ctx=node.ctx), node)
+                if node.id in sp['params'] and isinstance(node.ctx, ast.Load):
+                    return _clone(args[sp['params'].index(node.id)])
+                if sp['me'] is not None and node.id == sp['me']:
+                    return ast.copy_location(ast.Name(id='self', ctx=node.ctx), node)
+                return node
+        out = [Sub().visit(_clone(st)) for st in stmts]
+        for st in out:
+            for x in ast.walk(st):
+                x.lineno = ref.lineno
+                x.col_offset = ref.col_offset
+                x.end_lineno = getattr(ref, 'end_lineno', ref.lineno)
+                x.end_col_offset = getattr(ref, 'end_col_offset', ref.col_offset)
+        return out
+
+    def jumps(body):
+        stack = list(body)
+        while stack:
+            n = stack.pop()
+            if isinstance(n, (ast.Return, ast.Break, ast.Continue)):
+                return True
+            if isinstance(n, (ast.FunctionDef, ast.AsyncFunctionDef, ast.Lambda, ast.ClassDef)):
+                continue
+            stack.extend(ast.iter_child_nodes(n))
+        return False
+    used = set()
+
+    class Expand(ast.NodeTransformer):
+        def visit_With(self, node):
+            self.generic_visit(node)
+            body = node.body
+            changed = False
+            for item in reversed(node.items):
+                sp = spec_for(item.context_expr, node)
+                if sp is None or (item.optional_vars is not None and not isinstance(item.optional_vars, ast.Name)):
+                    body = [ast.With(items=[item], body=body)]
+                    continue
+                counter[0] += 1
+                tag = counter[0]
+                args = item.context_expr.args
+                pre = instantiate(sp['pre'], sp, args, node, tag)
+                post = instantiate(sp['post'], sp, args, node, tag)
+                if item.optional_vars is not None:
+                    val = instantiate([ast.Expr(value=sp['yv'])], sp, args, node, tag)[0].value if sp['yv'] is not None else ast.Constant(value=None)
+                    pre.append(ast.Assign(targets=[item.optional_vars], value=val))
+                if sp['fin']:
+                    body = pre + [ast.Try(body=body, handlers=[], orelse=[], finalbody=post or [ast.Pass()])]
+                elif not post:
+                    body = pre + body
+                elif not jumps(body):
+                    body = pre + body + post
+                else:
+                    # post runs on every exit of the block except an exception
+                    flag = '_cm%d_raised' % tag
+                    setf = ast.Assign(targets=[ast.Name(id=flag, ctx=ast.Store())], value=ast.Constant(value=False))
+                    hnd = ast.ExceptHandler(type=ast.Name(id='BaseException', ctx=ast.Load()), name=None,
+                                            body=[ast.Assign(targets=[ast.Name(id=flag, ctx=ast.Store())], value=ast.Constant(value=True)),
+                                                  ast.Raise(exc=None, cause=None)])
+                    fin = ast.If(test=ast.UnaryOp(op=ast.Not(), operand=ast.Name(id=flag, ctx=ast.Load())), body=post, orelse=[])
+                    body = pre + [setf, ast.Try(body=body, handlers=[hnd], orelse=[], finalbody=[fin])]
+                used.add(sp['name'])
+                changed = True
+            if not changed:
+                return node
+            for b in body:
+                ast.copy_location(b, node)
+                ast.fix_missing_locations(b)
+            return body
+    Expand().visit(tree)
+    set_parents(tree)
+    # drop the functions nothing mentions any more
+    dropped = []
+    for (cn, fn), sp in specs.items():
+        if fn not in used:
+            continue
+        mention = False
+        for n in ast.walk(tree):
+            if (isinstance(n, ast.Name) and n.id == fn and cn is None) or (isinstance(n, ast.Attribute) and n.attr == fn):
+                mention = True
+            if isinstance(n, ast.Constant) and n.value == fn:
+                mention = True
+        if not mention:
+            owner = tree if cn is None else next(c for c in tree.body if isinstance(c, ast.ClassDef) and c.name == cn)
+            owner.body = [st for st in owner.body if not (isinstance(st, ast.FunctionDef) and st.name == fn)]
+            dropped.append(fn)
+    set_parents(tree)
+    return dropped
 
 
 class FuncInfo:
@@ -313,7 +506,7 @@ class Module:
         except SyntaxError as e:
             raise AnalysisError('cannot parse %s: %s' % (self.relpath, e))
         set_parents(self.tree)
-        self.expanded = expand_context_manager_classes(self.tree)
+        self.expanded = expand_context_manager_classes(self.tree) + expand_generator_context_managers(self.tree)
         self.classes = {}
         self.functions = {}
         self.star_imports = []     # repo module names (or external dotted names)
